@@ -53,8 +53,10 @@ def draw_case(data, tier):
         if cfg["cls"] == "UNet":
             cfg["num_downsamples"] = 1
             cfg["N"] = 4 if cfg["d"] == 2 else 2
+            cfg.pop("shape", None)  # drawn for a ConvBlock: not necessarily a multiple of the pooling factor
     cfg["mode"] = "model"
     cfg["xseed"] = data.draw(st.integers(0, 9999), label="xseed")
+    cfg["group_average"] = data.draw(st.integers(0, 3), label="wrap_in_group_average") == 0
     return cfg
 
 
@@ -176,6 +178,9 @@ def run_case(cfg):
     tor = (bool(cfg["torus"]),) * d
     x = netgen.to_mi(d, X, cfg["torus"])
     variants = [("fresh", model), ("tree_map", jax.tree_util.tree_map(lambda v: v, model))]
+    if cfg.get("group_average") and len(set(netgen.model_shape(cfg))) == 1:
+        labels.append("group_average_wrapped")
+        variants.append(("group_average", models.GroupAverage(model, netgen.group_ops(d, "C2"), always_average=True)))
     for name, m in variants:
         out = netgen.call_model(m, x)
         got = out.get_signature()
